@@ -208,4 +208,51 @@ mutual
     | n :: ns => size n + sizeAll ns
 end
 
+/-! ## Well-formed trees and span-free shapes (for the round-trip law) -/
+
+-- The tree without its spans.
+mutual
+  def strip : Node → Node
+    | .comment t => .comment t
+    | .regular _ key _ data _ children _ => .regular 0 key ⟨0, 0⟩ data ⟨0, 0⟩ (stripAll children) ⟨0, 0⟩
+  def stripAll : List Node → List Node
+    | [] => []
+    | n :: ns => strip n :: stripAll ns
+end
+
+/-- Reading `t` from nesting depth `d` never closes more than was opened and ends at depth 0. -/
+def balancedFrom : Nat → List Char → Bool
+  | d, [] => d == 0
+  | d, c :: t =>
+    if c = '(' then balancedFrom (d + 1) t
+    else if c = ')' then (match d with | 0 => false | d' + 1 => balancedFrom d' t)
+    else balancedFrom d t
+
+/-- What the canonical printer can print so that it reads back: keys made of key characters
+and different from `COMMENT`; data without parentheses that does not begin with a blank;
+comments whose parentheses balance and that do not begin with a key character; no `\r`. -/
+def headOK (p : Char → Bool) : List Char → Bool
+  | [] => true
+  | c :: _ => !p c
+
+mutual
+  def WF (alnum : Char → Bool) : Node → Prop
+    | .comment t => balancedFrom 0 t = true ∧ headOK (isKeyChar alnum) t = true ∧ (∀ c ∈ t, c ≠ '\r')
+    | .regular _ key _ data _ children _ =>
+      (∀ c ∈ key, isKeyChar alnum c = true) ∧ key ≠ commentKey ∧ (∀ c ∈ key, c ≠ '\r') ∧
+      (∀ c ∈ data, notParen c = true) ∧ headOK isBlank data = true ∧ (∀ c ∈ data, c ≠ '\r') ∧
+      WFAll alnum children
+  def WFAll (alnum : Char → Bool) : List Node → Prop
+    | [] => True
+    | n :: ns => WF alnum n ∧ WFAll alnum ns
+end
+
+/-- What the round-trip law needs of the notion of "alphanumeric": the letters of `COMMENT`
+are alphanumeric; blanks, parentheses and `\r` are not (true of `char::is_alphanumeric`). -/
+structure AlnumOK (alnum : Char → Bool) : Prop where
+  comment : ∀ c ∈ commentKey, alnum c = true
+  space : alnum ' ' = false
+  lparen : alnum '(' = false
+  rparen : alnum ')' = false
+
 end C10.Cst
